@@ -805,6 +805,31 @@ func ruleEnvCertOnly(c *Ctx) {
 			site = call
 		}
 	}
+	if certArg == nil {
+		// "PLUGIN_CLIENT_CERT=" + string(v): the last operand of the concatenation
+		ast.Inspect(f.Body, func(x ast.Node) bool {
+			be, isB := x.(*ast.BinaryExpr)
+			if !isB || be.Op != token.ADD || certArg != nil {
+				return true
+			}
+			if _, nested := p.Parent(be).(*ast.BinaryExpr); nested {
+				return true
+			}
+			if p.envKeyOf(f, be) != "PLUGIN_CLIENT_CERT" {
+				return true
+			}
+			ops := concatOperands(be)
+			last := ast.Unparen(ops[len(ops)-1])
+			if conv, isC := last.(*ast.CallExpr); isC && len(conv.Args) == 1 {
+				if tv, ok := info.Types[conv.Fun]; ok && tv.IsType() {
+					last = ast.Unparen(conv.Args[0])
+				}
+			}
+			certArg, _ = identObj(info, last).(*types.Var)
+			site = be
+			return true
+		})
+	}
 	ok := false
 	if certArg != nil {
 		ast.Inspect(f.Body, func(x ast.Node) bool {
